@@ -544,6 +544,7 @@ pub fn run_sscenario(sc: &SScenario, replay: Option<Vec<Decision>>, trace: bool)
         probes,
         states: Vec::new(),
         step_cap_hit,
+        switch_pairs: stats.switch_pairs.iter().copied().collect(),
     }
 }
 
